@@ -52,6 +52,14 @@ def checkedCalcNewCapacity (cfg : Cfg) (v : Vec) (req : Nat) : M α Nat :=
   | none => throwE .length
   | some n => pure n
 
+/-- the capacity computation a growing path performs: the checked one (length_error beyond max_size) or the unchecked one -/
+def calcNewCapacity (cfg : Cfg) (checked : Bool) (v : Vec) (req : Nat) : M α Nat :=
+  if checked then checkedCalcNewCapacity cfg v req else pure (newCapacity cfg.maxSize v.cap req)
+
+/-- the allocation a growing path performs: checked_allocate or unchecked_allocate -/
+def allocateBy (cfg : Cfg) (checked : Bool) (a n : Nat) : M α Nat :=
+  if checked then checkedAllocate cfg a n else allocate cfg a n
+
 /-- uninitialized_move<Policy> (hpp:3618-3644): copies instead when the strong policy forbids moving -/
 def uninitializedMove (cfg : Cfg) (strong : Bool) (sblk sidx n dblk didx : Nat) : M α Unit :=
   uninitGen cfg dblk didx 0
@@ -335,8 +343,8 @@ def insertRangeInputMid (cfg : Cfg) (c pos sid : Nat) (xs : List α) : M α Nat 
 def requestCapacity (cfg : Cfg) (c request : Nat) : M α Unit :=
   getV c >>= fun v =>
   if guard_requestCapacity_0 { genv cfg v with request := request } then pure () else
-  checkedCalcNewCapacity cfg v request >>= fun ncap =>
-  allocate cfg v.alloc ncap >>= fun nb =>
+  calcNewCapacity cfg requestCapacityCalcChecked v request >>= fun ncap =>
+  allocateBy cfg requestCapacityAllocChecked v.alloc ncap >>= fun nb =>
   tryCatch (uninitializedMove cfg true v.data 0 v.size nb 0)
     (fun e => deallocate v.alloc nb ncap >>= fun _ => throwE e) >>= fun _ =>
   wipe cfg c >>= fun _ =>
@@ -374,8 +382,8 @@ def assignWithCopies (cfg : Cfg) (c count : Nat) (s : Src α) : M α Unit :=
   getV c >>= fun v =>
   let e : GuardEnv := { genv cfg v with count := count }
   if guard_assignWithCopies_0 e then
-    checkedCalcNewCapacity cfg v count >>= fun ncap =>
-    allocate cfg v.alloc ncap >>= fun nb =>
+    calcNewCapacity cfg assignWithCopiesCalcChecked v count >>= fun ncap =>
+    allocateBy cfg assignWithCopiesAllocChecked v.alloc ncap >>= fun nb =>
     tryCatch (uninitGen cfg nb 0 0 (List.replicate count s))
       (fun ex => deallocate v.alloc nb ncap >>= fun _ => throwE ex) >>= fun _ =>
     resetData cfg c nb ncap count
@@ -392,8 +400,8 @@ def assignWithRangeFwd (cfg : Cfg) (c : Nat) (srcs : List (Src α)) : M α Unit 
   getV c >>= fun v =>
   let e : GuardEnv := { genv cfg v with count := srcs.length }
   if guard_assignWithRange1_0 e then
-    checkedCalcNewCapacity cfg v srcs.length >>= fun ncap =>
-    allocate cfg v.alloc ncap >>= fun nb =>
+    calcNewCapacity cfg assignWithRangeCalcChecked v srcs.length >>= fun ncap =>
+    allocateBy cfg assignWithRangeAllocChecked v.alloc ncap >>= fun nb =>
     tryCatch (uninitGen cfg nb 0 0 srcs)
       (fun ex => deallocate v.alloc nb ncap >>= fun _ => throwE ex) >>= fun _ =>
     resetData cfg c nb ncap srcs.length
